@@ -378,6 +378,71 @@ pub fn mutants(problem: &Value, solution: &Value) -> Vec<Mutant> {
             }
         }
     }
+    // ---- a pure split: two single-task jobs served by different tours become the two tasks of one job of the problem;
+    // nothing moves in the solution (times, loads and distances stay consistent), the only breach is that the job is
+    // now served by two tours (in particular: by two shifts of one vehicle)
+    {
+        let single_task = |id: &str| -> Option<(String, Value)> {
+            let job = problem["plan"]["jobs"].as_array()?.iter().find(|j| j["id"].as_str() == Some(id))?;
+            let mut found: Vec<(String, Value)> = vec![];
+            for kind in ["pickups", "deliveries"] {
+                for t in job.get(kind).and_then(|t| t.as_array()).into_iter().flatten() {
+                    found.push((kind.to_string(), t.clone()));
+                }
+            }
+            let others = ["services", "replacements"].iter().any(|k| job.get(*k).and_then(|t| t.as_array()).is_some_and(|t| !t.is_empty()));
+            if found.len() == 1 && !others && found[0].1["places"].as_array().is_some_and(|p| p.len() == 1) {
+                found.pop()
+            } else {
+                None
+            }
+        };
+        let first_simple = |tour: &Value| -> Option<(String, String, Value)> {
+            tour_job_ids(tour).into_iter().find_map(|id| single_task(&id).map(|(kind, task)| (id, kind, task)))
+        };
+        let mut pairs = 0;
+        for ti in 0..tours.len() {
+            for tj in ti + 1..tours.len() {
+                let (Some((a, kind_a, task_a)), Some((b, kind_b, task_b))) = (first_simple(&tours[ti]), first_simple(&tours[tj])) else { continue };
+                if kind_a != kind_b || a == b {
+                    continue;
+                }
+                let same_vehicle = tours[ti]["vehicleId"] == tours[tj]["vehicleId"];
+                // all pairs of two shifts of one vehicle, a few of the others
+                if !same_vehicle && pairs >= 3 {
+                    continue;
+                }
+                pairs += 1;
+                let merged_id = format!("{a}+{b}");
+                let mut p2 = problem.clone();
+                let mut s2 = solution.clone();
+                let mut tasks = vec![];
+                for (task, tag) in [(task_a.clone(), "m1"), (task_b.clone(), "m2")] {
+                    let mut t = task;
+                    t["places"][0]["tag"] = json!(tag);
+                    if let Some(o) = t.as_object_mut() {
+                        o.remove("order");
+                    }
+                    tasks.push(t);
+                }
+                if let Some(jobs) = p2["plan"]["jobs"].as_array_mut() {
+                    jobs.retain(|j| j["id"].as_str() != Some(a.as_str()) && j["id"].as_str() != Some(b.as_str()));
+                    jobs.push(json!({"id": merged_id, kind_a.as_str(): tasks}));
+                }
+                for (tk, id, tag) in [(ti, &a, "m1"), (tj, &b, "m2")] {
+                    for stop in s2["tours"][tk]["stops"].as_array_mut().into_iter().flatten() {
+                        for act in stop["activities"].as_array_mut().into_iter().flatten() {
+                            if act["jobId"].as_str() == Some(id.as_str()) {
+                                act["jobId"] = json!(merged_id);
+                                act["jobTag"] = json!(tag);
+                            }
+                        }
+                    }
+                }
+                out.push(Mutant { class: "job-split-over-tours", site: format!("tour{ti}.merged-with-tour{tj}{}", if same_vehicle { ".same-vehicle" } else { "" }), problem: Some(p2), solution: Some(s2) });
+            }
+        }
+    }
     // ---- solution level
     for (field, value) in [("distance", solution["statistic"]["distance"].as_i64().unwrap_or(0)), ("duration", solution["statistic"]["duration"].as_i64().unwrap_or(0))] {
         s_mut("statistic-mismatch", format!("solution.statistic.{field}+5"), &|s| {
@@ -561,7 +626,17 @@ fn rejection_class(problem: &Value, solution: &Value, error: &str) -> String {
             stops.iter().any(|s| s["activities"].as_array().is_some_and(|a| a.iter().skip(1).any(is_reload)))
                 || stops.last().is_some_and(|s| s["activities"].as_array().is_some_and(|a| a.iter().any(is_reload)))
         });
-        return if inside { "load-with-reload-sharing-stop".into() } else { "load-unexplained".into() };
+        if inside {
+            return "load-with-reload-sharing-stop".into();
+        }
+        // ... or a tour interval which consists of one stop (departure stop or reload stop directly followed by a reload
+        // stop): no leg belongs to it, what is picked up there is not carried into the next interval
+        let one_stop = solution["tours"].as_array().into_iter().flatten().filter(|t| resource_complaint || t["vehicleId"].as_str().is_some_and(|v| error.contains(&format!("'{v}'")))).any(|t| {
+            let stops = t["stops"].as_array().cloned().unwrap_or_default();
+            let first_is_reload = |si: usize| stops.get(si).is_some_and(|s| s["activities"][0]["type"].as_str() == Some("reload"));
+            (0..stops.len()).any(|si| (si == 0 || first_is_reload(si)) && first_is_reload(si + 1))
+        });
+        return if one_stop { "load-with-interval-of-one-stop".into() } else { "load-unexplained".into() };
     }
     normalise(error)
 }
